@@ -24,12 +24,27 @@ CHECK = Check(
         "kernel models (OW/Kernels/*) are parameters of these theorems; their own correspondence is checked by the kernel-level properties",
     ],
     assumptions=["C04Nd (view-level refinement): root arrays with extents >= 1 in different storages, T <= T' (output array at least as long as the "
-                 "series), kernel results fit the arrays (at most nO series of at most T values, at most nS states); wrapperNd_refines / runNd_refines "
-                 "cover scalar-parameter specs (table parameters: view-level fact param_decoding_table only)",
-                 "the states array is at least as wide as every cell's state vector (a narrower array makes the code copy past the row; caller error)",
+                 "series), and the kernel-fit hypothesis hK: WHEN CALLED ON ARGUMENTS OF THE SHAPE THE WRAPPER PASSES (nI input series of exactly T values, a state "
+                 "row of exactly nS values) the kernel returns at most nO series of at most T values and at most nS states (met by registry kernels: "
+                 "C04Nd.ExRefine.muskingum_fits / coeff_fits; the unrestricted form is met by no real kernel: unrestricted_fit_is_unsatisfiable); "
+                 "wrapperNd_refines / runNd_refines cover scalar-parameter specs, wrapperNd_refines_tables / runNd_refines_tables specs with 1-D tables",
+                 "single_cell_eq: the states are given (x.states = some ..; the InitialiseStates path is not part of it), the parameter array has at least n rows "
+                 "(fewer: FindDimensions panics), all n parameters scalar (for tables: single_cell_eq_of_column, which takes a one-cell parameter array "
+                 "decoding to the same column as a hypothesis)",
+                 "list-level layout (OW/Sim/Wrapper.lean layout): a dimension parameter's maximum is >= 0 (the model clamps with toNat; Go's paramIdx += paramSize "
+                 "would move backwards) and no Maximum() over an EMPTY slice is taken, i.e. nSets >= 1 and every table has maxLen >= 1 (the model returns 0 "
+                 "there; Go's Maximum() reads element [0,..] of the empty view unchecked: a neighbouring value, or an index panic at the end of the array) - both "
+                 "hold under the hypotheses of the view-level theorems (RootOn extents >= 1; 1 <= sz in C04NdTables) and in every W case",
+                 "no input block (inputs.length = 0): cellStep fails with Go's integer divide by zero (cellStep_no_blocks); the theorems about a successful "
+                 "step derive inputs.length != 0 (cellStep_frame, cellStep_ok_blocks), so i % nBlocks is always a block index there",
+                 "the states array is at least as wide as every cell's state vector (a narrower array makes the code copy past the row; "
+                 "KF-C05-*-InitialiseStates-row-width)",
                  "table-valued parameters have at most one dimension (true of all 41 specs)"],
-    partial=["single_cell_eq for table-valued parameters: the layout lemma is proved for all-scalar specs (layout_scalar, cellParams_scalar); "
-             "for tables the per-cell decoding is covered by the correspondence and by the in-worker single-cell oracle only"],
+    partial=["single_cell_eq for table-valued parameters: proved in the conditional form single_cell_eq_of_column (any spec; the one-cell parameter array "
+             "that decodes to the cell's column is a hypothesis); the construction of that array is proved for all-scalar specs only (oneSet, cellParams_oneSet); "
+             "for tables the per-cell decoding is covered by cellParams_tables / param_decoding_tables, by the correspondence and by the in-worker single-cell oracle",
+             "single_cell_eq does not cover x.states = none (InitialiseStates sized from cell 0): that path is in the model (initStates) and in the W "
+             "correspondence only"],
 )
 
 META = dict(
@@ -39,8 +54,11 @@ META = dict(
          "parameter decoding incl. the rank-1 slice of table parameters; write footprints of different cells disjoint; every reshape the "
          "template performs is on a contiguous view; one cell step and the whole sequential Run REFINE the list-level semantics) and "
          "(b) over the list-level wrapper semantics, for every kernel, layout, cell count, set/block count: runCells_spec (the N-cell run is "
-         "exactly cellStep on each cell's own state row and output rows; rows of cells that do not run untouched), cellStep_frame (lengths "
-         "kept, timesteps/state columns beyond what the kernel returns untouched), cellStep_input_block (block i % nBlocks), "
+         "exactly cellStep on each cell's own state row and output rows; rows of cells that do not run untouched), single_cell_eq (cell i's "
+         "rows in the N-cell Sim.run = Sim.run with ONE cell on its own parameter column as a one-set array, its own input block, its own state "
+         "row and output rows; scalar-parameter specs; any spec given the one-cell parameter array: single_cell_eq_of_column), cellStep_frame "
+         "(a successful step IS km.run on the cell's column / block / state row: lengths kept, timesteps/state columns beyond what the kernel "
+         "returns untouched, the rest are the kernel's values), cellStep_input_block (block i % nBlocks), cellStep_no_blocks, "
          "layout_scalar/cellParams_scalar (parameter j of cell i is parameters[j][i % nSets]). The semantics is tied to the real "
          "generated wrappers by exact correspondence on vectorised runs of all catalogued models, with an in-process oracle that "
          "re-runs each cell alone.",
